@@ -220,17 +220,16 @@ def run_jit_programs(res, cases, levels, max_report=4):
     program is compiled once (bytecode + machine code + code offset of each bytecode instruction);
     each instruction's code is disassembled and handed to the certified checker of its kind —
     arithmetic: X86.form_ok, Inp/Out: X86Call.call_ok, BrZ/BrNZ: X86Call.br_ok plus the check that
-    the jump lands on the code of instruction pc+off, Noop: no code.  Pointer moves (Mov) are
-    recognised but not certified (their bounds-probe protocol is theorem C06_protocol_safe; the
-    address arithmetic is observed under guard pages)."""
+    the jump lands on the code of instruction pc+off, Noop: no code, Mov: X86Mov.mov_ok (the emitted code equals the template whose behaviour is
+    theorem C03_mov_template; the jb must jump to the end of the template)."""
     from . import x86tr
     from . import pipeline as P
     driver = C.build_driver()
     hv = C.build_harness("debug")
-    stats = {"programs": 0, "instructions": 0, "accepted": {"arith": 0, "io": 0, "branch": 0, "noop": 0}, "mov_not_certified": 0,
+    stats = {"programs": 0, "instructions": 0, "accepted": {"arith": 0, "io": 0, "branch": 0, "noop": 0, "mov": 0},
              "rejected": 0, "unsupported": 0}
     rep = 0
-    kind_of = {"a": "arith", "u": "arith", "x": "arith", "c": "arith", "i": "io", "o": "io", "z": "branch", "nz": "branch"}
+    kind_of = {"m": "mov", "a": "arith", "u": "arith", "x": "arith", "c": "arith", "i": "io", "o": "io", "z": "branch", "nz": "branch"}
     for level in levels:
         outs = C.run_lines(hv, ["mcprog|%d|%d|0|1|%s" % (c.w, level, P.hexs(c.src)) for c in cases])
         jobs = []
@@ -245,11 +244,11 @@ def run_jit_programs(res, cases, levels, max_report=4):
             if len(locs) != len(ins) + 1:
                 raise C.CheckFailure("mcprog: %d locations for %d instructions" % (len(locs), len(ins)))
             for i, (live, tk) in enumerate(ins):
-                jobs.append((c, i, tk, live, code[locs[i]:locs[i + 1]].hex(), locs, int(term), level))
+                jobs.append((c, i, tk, live, code[locs[i]:locs[i + 1]].hex(), locs, int(term), level, hdr))
         dis = x86tr.disasm_many([j[4] for j in jobs])
         lines, meta = [], []
         for j, di in zip(jobs, dis):
-            c, i, tk, live, _, locs, term, lvl = j
+            c, i, tk, live, _, locs, term, lvl, hdr = j
             stats["instructions"] += 1
             k, w = tk[0], c.w
             one = "14 -2 12 1 %s %s" % (live, " ".join(tk))
@@ -260,7 +259,8 @@ def run_jit_programs(res, cases, levels, max_report=4):
                     stats["accepted"]["noop"] += 1
                     continue
                 if k == "m":
-                    stats["mov_not_certified"] += 1
+                    lines.append("x86mov|%d|14 %s %s 1 %s %s|%s" % (w, j[8][1], j[8][2], live, " ".join(tk), x86tr.translate_mov(di, w, len(j[4]) // 2)))
+                    meta.append((j, di))
                     continue
                 if k in "auxc":
                     lines.append("x86form|%d|%s|%s" % (w, one, ";".join(x86tr.translate(t, w) for t in di)))
